@@ -1404,6 +1404,8 @@ func main() {
 			decisionFunc("driver/netconf/driver.go", "Driver.storeMessage"), decisionFunc("driver/netconf/driver.go", "Driver.getMessage"))
 		fmt.Fprintf(&sw, "(* driver/netconf/rpc.go Driver.sendRPC (the polling goroutine as one effect) *)\nDefinition send_rpc_code : list dstmt :=\n  %s.\n",
 			decisionFunc("driver/netconf/rpc.go", "Driver.sendRPC", "@opaque-go"))
+		fmt.Fprintf(&sw, "(* driver/netconf/read.go Driver.read (the NETCONF read loop) *)\nDefinition nc_read_code : list dstmt :=\n  %s.\n",
+			decisionFunc("driver/netconf/read.go", "Driver.read", "getNetconfPatterns"))
 		fmt.Fprintf(&sw, "(* transport/standard.go Standard.openSession, Standard.Close *)\nDefinition std_open_session_code : list dstmt :=\n  %s.\nDefinition std_close_code : list dstmt :=\n  %s.\n",
 			decisionFunc("transport/standard.go", "Standard.openSession"), decisionFunc("transport/standard.go", "Standard.Close"))
 		fmt.Fprintf(&sw, "(* response/netconf.go NetconfResponse.record1dot1Chunks, record1dot1, Record *)\nDefinition record_chunks_code : list dstmt :=\n  %s.\nDefinition record11_code : list dstmt :=\n  %s.\nDefinition nc_record_code : list dstmt :=\n  %s.\n",
